@@ -671,7 +671,7 @@ func c14Paths(c *core.Check) {
 	}
 	for k := range c14PathNotes {
 		if seen[k] == 0 && seen[stripN(k)] == 0 {
-			r.Unknown("stale note "+k, "-", "the reasoned table names a Paint/Clip site that no longer exists")
+			r.Skip("stale note "+k, "-", "the reasoned table names a Paint/Clip site that no longer exists (not a violation: the table entry is simply unused)")
 		}
 	}
 	if n < 20 {
